@@ -206,6 +206,14 @@ ITEMS = [
      M + "    let t = (m, m2);\n    let r = RefLockCollection::new(&t);\n    let c = OwnedLockCollection::new((r,));",
      M + "    let t = (m, m2);\n    let r = LockCollection::new(t);\n    let c = OwnedLockCollection::new((r,));",
      'negb (ol (TTuple [TCon "RefLockCollection" (TTuple [TCon "Mutex" (TPay true true)])]))', ["E0277"], None),
+    ("new_of_checked_ref_collections", "C07", "unchecked constructor given two checked collections that borrow the same lock",
+     M + "    let a = LockCollection::try_new(&m).unwrap();\n    let b = LockCollection::try_new(&m).unwrap();\n    let c = LockCollection::new((a, b));",
+     M + "    let a = LockCollection::new(m);\n    let b = LockCollection::new(m2);\n    let c = LockCollection::new((a, b));",
+     'negb (ol (TTuple [TCon "BoxedLockCollection" (TRef (TCon "Mutex" (TPay true true)))]))', ["E0277"], None),
+    ("retry_new_ref_of_checked_ref_collections", "C07", "new_ref given a tuple of checked collections that borrow the same lock",
+     M + "    let t = (LockCollection::try_new((&m, &m2)).unwrap(), LockCollection::try_new(&m2).unwrap());\n    let c = RetryingLockCollection::new_ref(&t);",
+     M + "    let t = (LockCollection::new((m, Mutex::new(3))), LockCollection::new(m2));\n    let c = RetryingLockCollection::new_ref(&t);",
+     'negb (ol (TTuple [TCon "BoxedLockCollection" (TTuple [TRef (TCon "Mutex" (TPay true true))]); TCon "BoxedLockCollection" (TRef (TCon "Mutex" (TPay true true)))]))', ["E0277"], None),
     ("owned_new_poisonable_ref", "C07", "OwnedLockCollection given a Poisonable around a reference",
      M + "    let c = OwnedLockCollection::new((happylock::poisonable::Poisonable::new(&m), happylock::poisonable::Poisonable::new(&m)));",
      M + "    let c = OwnedLockCollection::new((happylock::poisonable::Poisonable::new(m), happylock::poisonable::Poisonable::new(m2)));",
